@@ -10,7 +10,7 @@ mod verif_c17 {
     use super::*;
     use crate::verif_spec as vs;
 
-    //@ob id=C17.icao_to_country.contract props=C17 tier=quick kind=contract fns=country/country_icao_mask.rs:icao_to_country
+    //@ob id=C17.icao_to_country.contract props=C17 tier=quick kind=contract fns=country/country_icao_mask.rs:icao_to_country replay=country
     //@region all 2^24 addresses: code == block of the flat Annex 10 table containing the address, "??" outside every block
     #[kani::proof_for_contract(icao_to_country)]
     #[kani::unwind(192)]
